@@ -49,6 +49,9 @@ def verify_one(args):
         spec = specs[fid]
         eng = Engine(Repo(repo_root), SCHEMA, specs, timeout_ms=(20000 if tier == 'quick' else 60000) * (2 if attempt else 1),
                      both=(tier == 'thorough'))
+        # per-function wall deadline (after it the remaining obligations get short budgets; see EngineBase.check)
+        eng.deadline = time.time() + (240 if tier == 'quick' else 900) * (2 if attempt else 1)
+        eng.had_unknown = False
         if fid.startswith('lemma::'):
             from pyvc.lemma import run_lemma
             info = run_lemma(eng, spec)
